@@ -52,9 +52,12 @@ class ComputeTypeVisitor(Visitor.DefaultVisitor):
 
         scope = ctx[-1]
         fields = OrderedDict()
+        # The fields are names of the structure, not of the enclosing scope
+        ctx.append(types.Scope(scope))
         for field in decl.GetFields():
             self.v_Visit(field, ctx)
             fields[field.GetName()] = field.GetType()
+        ctx.pop()
         structType = types.StructType(decl.GetName(), fields)
         scope.RegisterType(decl.GetName(), structType)
         decl.SetType(structType)
